@@ -63,8 +63,7 @@ CHECKS = {
              "bracket_condition_plain: any input without '[' satisfies it; file URLs are free of it) and with "
              "ada::idna::to_ascii as a parameter; aggregator_parser_no_base_partial - through C04.parse_agrees the default "
              "type's parser without a base leaves the layout (bytes and eight offsets) of Spec.parse's record, and "
-             "aggregator_parser_with_base_partial the same with a base unless a file URL is involved (those routes of the "
-             "aggregator are modelled and compared call by call in C04). Spec.parse is a hand transcription of the Standard (trusted, validated by WPT). "
+             "aggregator_parser_with_base_partial the same with a base (C04.parse_agrees_with_base). Spec.parse is a hand transcription of the Standard (trusted, validated by WPT). "
              "IDNA answers inside the Spec come from ada::idna (C06)."),
 
     "C03": dict(
@@ -119,9 +118,9 @@ CHECKS = {
              "length (buffer.size() = get_href_size() on parsed records). With a base the aggregator branches (copy_scheme, "
              "update_base_authority, update_host_to_base_host, port / path / search copies, shorten_path on the view, "
              "clear_pathname, append_base_pathname) are modelled (machineBA), run against ada::parse<url_aggregator>(input, "
-             "&base) on the real base object's buffer and offsets, and - parse_agrees_with_base_partial (Lemmas/ParseAggBase.lean, "
-             "900 lines) - proved in step with ada::url's for every base object that lays out a record with the invariants "
-             "(every parsed record: parsed_base_ok) whenever neither side is a file URL; the state between "
+             "&base) on the real base object's buffer and offsets, and - parse_agrees_with_base (Lemmas/ParseAggBase.lean, "
+             "1250 lines) - proved in step with ada::url's for every input and every base object that lays out a record with "
+             "the invariants (every parsed record: parsed_base_ok), file routes included; the state between "
              "update_base_authority and update_host_to_base_host is not the layout of any content and is computed on the raw "
              "buffer. The same (input, "
              "base, history) is applied to ada::url_aggregator and ada::url; after "
@@ -129,8 +128,8 @@ CHECKS = {
              "offsets are compared pairwise.",
         design_ref="DESIGN.md §5 C04, §11.3", category="proof",
         note="All ten setters are modelled on both types and proved to agree (set_host / set_hostname / set_href under the "
-             "bracket side condition of C03/C01); the parser is proved to agree without a base, and with a base except on the "
-             "routes through the file states (modelled and compared only); the agreement of the two types is additionally "
+             "bracket side condition of C03/C01); the parser is proved to agree without and with a base (IDNA as a parameter "
+             "returning ASCII lower case); the agreement of the two types is additionally "
              "decided by the lock-step run (differential, generator-bounded)."),
     "C05": dict(
         technique="Lean 4 proof of the property on the Spec parser: every parse result is a canonical record and every "
